@@ -328,16 +328,25 @@ def check_for_circular_dependencies(targets, dependencies):
     nodes = targets.values()
     state = dict((n, fresh) for n in nodes)
 
-    def visitor(node):
-        state[node] = started
-        for dep in dependencies[node]:
-            if state[dep] == started:
-                raise CircularDependencyError(
-                    "Target {} depends on itself.".format(node)
-                )
-            elif state[dep] == fresh:
-                visitor(dep)
-        state[node] = done
+    def visitor(root):
+        # Depth-first search with an explicit stack: dependency chains can be
+        # thousands of targets deep, far beyond the interpreter's recursion limit.
+        state[root] = started
+        stack = [(root, iter(dependencies[root]))]
+        while stack:
+            node, deps = stack[-1]
+            for dep in deps:
+                if state[dep] == started:
+                    raise CircularDependencyError(
+                        "Target {} depends on itself.".format(node)
+                    )
+                elif state[dep] == fresh:
+                    state[dep] = started
+                    stack.append((dep, iter(dependencies[dep])))
+                    break
+            else:
+                state[node] = done
+                stack.pop()
 
     for node in nodes:
         if state[node] == fresh:
